@@ -400,6 +400,21 @@ def c02_extra(tier):
                 sc = mk_scen(bb, gkw, **kw)
                 sc["spawn_fail"] = [S.NAMES[victim]]
                 tasks.append(dict(id=f"spawnfail-{g}-{tag}-{S.NAMES[victim]}", scen=sc, oracles=["Obs", "C02"], budget=(0, 0), cls="spawn-failure"))
+    # the result of a finished blocker cannot be recorded (lock timeout at the append): nothing that waits for it may start
+    for g in ("chain2", "chain3", "fork", "join"):
+        bb = S.REP[g]
+        for tag, gkw in (("one-batch-q1", dict(size=8, nproc=1)), ("one-batch-q2", dict(size=8, nproc=2))):
+            sc = mk_scen(bb, gkw)
+            tasks.append(dict(id=f"c02-{g}-{tag}-append-lock-timeout", scen=sc, oracles=["Obs", "C02"], budget=(0, 1),
+                              fault=dict(plan="joblock"), cls="fault-at-result-append"))
+    # the outcome of a job canceled by a SUBMITTER must be on disk before anything that waits for it is handed over:
+    # a node round killed / hit by EDQUOT at any L2 point, chain with a failing job, a flagged and an unflagged dependent
+    for g, ec, cc in (("chain3", (1, 0, 0), (0, 1, 0)), ("fork", (1, 0, 0), (0, 1, 0))):
+        bb = S.REP[g]
+        actors = [dict(name="rec", argv=["jade", "try-submit-jobs", "{out}"], host="login2", guard="idle_incomplete", repeat=2)]
+        sc = mk_scen(bb, dict(size=1, max_nodes=2), actors=actors, level=2, free_at_poll=True, exit_codes=ec, cancel=cc)
+        tasks.append(dict(id=f"c02-{g}-fail-cancel-node-round-fault", scen=sc, oracles=["Obs", "C02"], budget=(0, 1),
+                          fault=dict(plan="c11", victims=["n"], kinds=["kill", "write"]), cls="fault-in-round+failure+cancel-flag"))
     return tasks
 
 
@@ -414,7 +429,7 @@ def c02(tier):
         tasks += local_tasks(["C02"])
         tasks += c02_extra(tier)
         tasks += resub_slice_tasks(["C02"], tier, "c02")
-        bounds = "resubmission histories on every 3-job DAG; failures inside one queue (local mode and one batch, all finish orders) on G(3); unspawnable commands; G(1..3) x parameter grid at budget 0; 6 REP graphs x 4 parameter sets x exit codes x flags at 1 preemption; local mode on G(1..3) x processes 1-2"
+        bounds = "a lock timeout at any result append of a node (one batch, processes 1-2); a node round killed / failing with EDQUOT at any L2 point after a submitter-level cancel (failing job, flagged + unflagged dependents); resubmission histories on every 3-job DAG; failures inside one queue (local mode and one batch, all finish orders) on G(3); unspawnable commands; G(1..3) x parameter grid at budget 0; 6 REP graphs x 4 parameter sets x exit codes x flags at 1 preemption; local mode on G(1..3) x processes 1-2"
     else:
         tasks = input_grid_tasks(["C02"], ns=(1, 2, 3))
         tasks += input_grid_tasks(["C02"], ns=(4,), two_groups=False, max_nodes=(1, None), caps=(3,))
@@ -1596,6 +1611,12 @@ def c11_tasks(tier):
                     sc2 = mk_scen(bb, dict(size=1, max_nodes=None), actors=actors, level=2, lockmode=lockmode, free_at_poll=True)
                     tasks.append(dict(id=f"c11-{g}-sz1-mxN-{lockmode}-squeue", scen=sc2, oracles=["Obs", "C11"], budget=(0, 1),
                                       fault=dict(plan="c11", kinds=["squeue", "sbatch"]), cls=f"fault-in-round+{lockmode}"))
+                if g == "chain3" and lockmode == "never_break" and tag == "sz1-mx2":
+                    # a failing first job, a flagged dependent (canceled by the submitter) and an unflagged one behind it:
+                    # a node round killed anywhere between the cancel, the hand-over of the next batch and the status update
+                    sc3 = mk_scen(bb, gkw, actors=actors, level=2, lockmode=lockmode, free_at_poll=True, exit_codes=(1, 0, 0), cancel=(0, 1, 0))
+                    tasks.append(dict(id=f"c11-{g}-{tag}-{lockmode}-fail-cancel-kill", scen=sc3, oracles=["Obs", "C11"], budget=(0, 1),
+                                      fault=dict(plan="c11", victims=["n"], kinds=["kill", "write"]), cls=f"fault-in-round+failure+cancel-flag"))
                 if tier == "thorough":
                     tasks += shard([dict(id=f"c11-{g}-{tag}-{lockmode}-p1", scen=sc, oracles=["Obs", "C11"], budget=(1, 1),
                                          fault=dict(plan="c11", victims=["login", "n"], kinds=["kill"]), cls=f"fault-in-round+{lockmode}")], 8)
@@ -1607,7 +1628,7 @@ def c11(tier):
     tasks = c11_tasks(tier)
     bounds = ("REP graphs x batchings at sync level L2 (every lock operation, scheduler command, and every open/commit/rename/remove of the status and results files is a fault site) under both lock-library behaviours; "
               "victims: the login round, every node's try-submit-jobs round, the user's recovery rounds; one fault per history out of {kill at any site, sbatch failing once / on all attempts, squeue failing on all attempts, "
-              "lock-acquisition timeout, EDQUOT at any write-open or commit (after truncation)}; continuation = remaining nodes + two try-submit-jobs from another host + one from the login host"
+              "lock-acquisition timeout, EDQUOT at any write-open or commit (after truncation)}; one chain with a failing job, a submitter-canceled dependent and an unflagged job behind it (kill / EDQUOT in the node rounds); continuation = remaining nodes + two try-submit-jobs from another host + one from the login host"
               + ("; thorough adds 1 preemption of the survivors with kill faults" if tier == "thorough" else ""))
     return explore_check("C11", tier, tasks, S_RULE + "; fault alternatives cost 1 from a separate fault budget", COMMON_ASSUMPTIONS[:1] + [
         "sync level L2: inside critical sections every file operation is a scheduling/fault point; buffered-writer model (data reaches a file at close)",
